@@ -125,6 +125,7 @@ pub struct G<'r> {
     pub dup_loops: u32,
     pub force_braces: bool,
     pub braceless: u32,
+    pub guarded_includes: Vec<String>,
     pub eol: &'static str,
 }
 
@@ -163,6 +164,7 @@ impl<'r> G<'r> {
             dup_loops: 0,
             force_braces: false,
             braceless: 0,
+            guarded_includes: Vec::new(),
             eol,
         }
     }
